@@ -83,6 +83,20 @@ func V2Fns() map[string]*v2.Fn {
 			CallCheck: func(ctx *v2.Task, e *ast.CallExpr) *errchain.PlError { return nil },
 			Call:      func(ctx *v2.Task, e *ast.CallExpr) *errchain.PlError { return nil },
 		},
+		// camelId(x): a registered name with an upper-case letter (names are case-sensitive)
+		"camelId": {
+			Desc:      v2.FnDesc{Name: "camelId", Params: v2IDParams, Returns: v2AnyRet},
+			CallCheck: v2check(v2IDParams),
+			Call: func(ctx *v2.Task, e *ast.CallExpr) *errchain.PlError {
+				v, err := v2.GetParam(ctx, e, v2IDParams, 0)
+				if err != nil {
+					return err
+				}
+				lv, dt := goToDT(v)
+				ctx.Regs.ReturnAppend(v2.V{V: lv, T: dt})
+				return nil
+			},
+		},
 		"one": {
 			Desc:      v2.FnDesc{Name: "one", Returns: v2AnyRet},
 			CallCheck: v2check(nil),
